@@ -112,3 +112,36 @@ pub open spec fn exists_unprintable(bs: Seq<u8>) -> bool { exists|k: int| 0 <= k
 pub open spec fn enc_ascii(bs: Seq<u8>) -> Seq<char> decreases bs.len() {
     if bs.len() == 0 { Seq::empty() } else { enc_ascii(bs.drop_last()) + enc_a(bs.last()) }
 }
+
+// ------------------------------------------------------------------ `(escaped)` marker on glob expressions, `(no-eol)` on escaped ones
+pub open spec fn strip_suffix_of(e: Seq<char>, p: Seq<char>) -> Seq<char> { e.subrange(0, e.len() - p.len()) }
+pub open spec fn m_escaped() -> Seq<char> { seq![' ', '(', 'e', 's', 'c', 'a', 'p', 'e', 'd', ')'] }
+pub open spec fn m_escaped_bs() -> Seq<char> { seq![' ', '\\', '(', 'e', 's', 'c', 'a', 'p', 'e', 'd', '\\', ')'] }
+pub open spec fn m_esc() -> Seq<char> { seq![' ', '(', 'e', 's', 'c', ')'] }
+pub open spec fn m_esc_bs() -> Seq<char> { seq![' ', '\\', '(', 'e', 's', 'c', '\\', ')'] }
+pub open spec fn m_noeol() -> Seq<char> { seq![' ', '(', 'n', 'o', '-', 'e', 'o', 'l', ')'] }
+/// the expression without its ` (escaped)` / ` \(escaped\)` / ` (esc)` / ` \(esc\)` marker (first that applies), if it has one
+pub open spec fn as_escaped(e: Seq<char>) -> Option<Seq<char>> {
+    if is_suffix_of(m_escaped(), e) { Some(strip_suffix_of(e, m_escaped())) }
+    else if is_suffix_of(m_escaped_bs(), e) { Some(strip_suffix_of(e, m_escaped_bs())) }
+    else if is_suffix_of(m_esc(), e) { Some(strip_suffix_of(e, m_esc())) }
+    else if is_suffix_of(m_esc_bs(), e) { Some(strip_suffix_of(e, m_esc_bs())) }
+    else { None }
+}
+pub open spec fn without_noeol(e: Seq<char>) -> Seq<char> { if is_suffix_of(m_noeol(), e) { strip_suffix_of(e, m_noeol()) } else { e } }
+/// cutting a char-suffix off is a cut at a char boundary, at byte offset blen(e) - blen(p)
+pub proof fn lemma_suffix_boundary(e: Seq<char>, p: Seq<char>)
+    requires is_suffix_of(p, e),
+    ensures blen(e) == blen(e.take(e.len() - p.len())) + blen(p), boundary(e, blen(e) - blen(p)), boundary(e, 0), blen(e.take(0)) == 0,
+        e.subrange(0, e.len() - p.len()) == e.take(e.len() - p.len()),
+{
+    let k = e.len() - p.len();
+    assert(e =~= e.take(k) + p);
+    encode_utf8_concat(e.take(k), p);
+    assert(boundary(e, blen(e) - blen(p))) by { assert(blen(e.take(k)) == blen(e) - blen(p)); }
+    assert(e.take(0) =~= Seq::<char>::empty());
+    encode_utf8_concat(Seq::<char>::empty(), Seq::<char>::empty());
+    assert(Seq::<char>::empty() + Seq::<char>::empty() =~= Seq::<char>::empty());
+    assert(boundary(e, 0)) by { assert(blen(e.take(0)) == 0); }
+    assert(e.subrange(0, k) =~= e.take(k));
+}
